@@ -54,14 +54,18 @@ func (s *scope) lookup(varname string) string {
 	return ""
 }
 
+// (a loop keeps the names of its position and its size in the scope, next to its
+// variable, under keys with a blank in them: no variable of a template can have
+// such a name and hide them.)
+
 func (s *scope) pushForRange(loopVar string) (lVar, lLimit, lIndex, lCount string) {
 	n := s.suffix()
 	s.stack = append(s.stack, map[string]string{
 		loopVar:             loopVar + n,
-		"__limit":           loopVar + "Count" + n,
-		"__index":           loopVar + "Index" + n,
-		loopVar + "__limit": loopVar + "Count" + n,
-		loopVar + "__index": loopVar + "Index" + n,
+		" limit":           loopVar + "Count" + n,
+		" index":           loopVar + "Index" + n,
+		loopVar + " limit": loopVar + "Count" + n,
+		loopVar + " index": loopVar + "Index" + n,
 	})
 	return loopVar + n,
 		loopVar + "Limit" + n,
@@ -73,10 +77,10 @@ func (s *scope) pushForEach(loopVar string) (lVar, lList, lLen, lIndex string) {
 	n := s.suffix()
 	s.stack = append(s.stack, map[string]string{
 		loopVar:             loopVar + n,
-		"__limit":           loopVar + "Limit" + n,
-		"__index":           loopVar + "Index" + n,
-		loopVar + "__limit": loopVar + "Limit" + n,
-		loopVar + "__index": loopVar + "Index" + n,
+		" limit":           loopVar + "Limit" + n,
+		" index":           loopVar + "Index" + n,
+		loopVar + " limit": loopVar + "Limit" + n,
+		loopVar + " index": loopVar + "Index" + n,
 	})
 	return loopVar + n,
 		loopVar + "List" + n,
@@ -87,15 +91,15 @@ func (s *scope) pushForEach(loopVar string) (lVar, lList, lLen, lIndex string) {
 // loopvars returns the JS variable names holding the position and the number
 // of iterations of the loop over the given variable ("" if there is none).
 func (s *scope) loopvars(loopVar string) (index, limit string) {
-	return s.lookup(loopVar + "__index"), s.lookup(loopVar + "__limit")
+	return s.lookup(loopVar + " index"), s.lookup(loopVar + " limit")
 }
 
 // looplimit returns the JS variable name for the innermost loop limit.
 func (s *scope) looplimit() string {
-	return s.lookup("__limit")
+	return s.lookup(" limit")
 }
 
 // looplimit returns the JS variable name for the innermost loop index.
 func (s *scope) loopindex() string {
-	return s.lookup("__index")
+	return s.lookup(" index")
 }
